@@ -1,25 +1,25 @@
 (* Glue between OCaml ints/strings and the extracted Coq numbers (untrusted
    by the proofs, exercised by every correspondence run). *)
-open Fitmodel
+module F = Fitmodel
 
 let rec pos_of_int i =
-  if i <= 1 then XH
-  else if i land 1 = 0 then XO (pos_of_int (i lsr 1))
-  else XI (pos_of_int (i lsr 1))
+  if i <= 1 then F.XH
+  else if i land 1 = 0 then F.XO (pos_of_int (i lsr 1))
+  else F.XI (pos_of_int (i lsr 1))
 
-let n_of_int i = if i = 0 then N0 else Npos (pos_of_int i)
+let n_of_int i = if i = 0 then F.N0 else F.Npos (pos_of_int i)
 
 let rec int_of_pos = function
-  | XH -> 1
-  | XO p -> 2 * int_of_pos p
-  | XI p -> 2 * int_of_pos p + 1
+  | F.XH -> 1
+  | F.XO p -> 2 * int_of_pos p
+  | F.XI p -> 2 * int_of_pos p + 1
 
-let int_of_n = function N0 -> 0 | Npos p -> int_of_pos p
-let z_of_int i = if i = 0 then Z0 else if i > 0 then Zpos (pos_of_int i) else Zneg (pos_of_int (-i))
-let int_of_z = function Z0 -> 0 | Zpos p -> int_of_pos p | Zneg p -> - (int_of_pos p)
+let int_of_n = function F.N0 -> 0 | F.Npos p -> int_of_pos p
+let z_of_int i = if i = 0 then F.Z0 else if i > 0 then F.Zpos (pos_of_int i) else F.Zneg (pos_of_int (-i))
+let int_of_z = function F.Z0 -> 0 | F.Zpos p -> int_of_pos p | F.Zneg p -> - (int_of_pos p)
 
-let rec nat_of_int i = if i <= 0 then O else S (nat_of_int (i - 1))
-let rec int_of_nat = function O -> 0 | S n -> 1 + int_of_nat n
+let rec nat_of_int i = if i <= 0 then F.O else F.S (nat_of_int (i - 1))
+let rec int_of_nat = function F.O -> 0 | F.S n -> 1 + int_of_nat n
 
 (* decimal strings for numbers that may exceed 62 bits are not needed: every
    quantity in the model fits in 63 bits (uint32, int64 seconds, byte lists). *)
@@ -31,7 +31,7 @@ let hexval c =
   | 'A' .. 'F' -> Char.code c - 55
   | _ -> failwith "bad hex"
 
-let bytes_of_hex (s : string) : n list =
+let bytes_of_hex (s : string) : F.n list =
   if s = "-" then []
   else begin
     let len = String.length s / 2 in
@@ -42,7 +42,7 @@ let bytes_of_hex (s : string) : n list =
     go (len - 1) []
   end
 
-let hex_of_bytes (l : n list) : string =
+let hex_of_bytes (l : F.n list) : string =
   if l = [] then "-"
   else begin
     let b = Buffer.create 64 in
@@ -51,3 +51,25 @@ let hex_of_bytes (l : n list) : string =
   end
 
 let split_ws s = List.filter (fun x -> x <> "") (String.split_on_char ' ' s)
+
+(* Coq string -> OCaml string *)
+let char_of_ascii (F.Ascii (b0, b1, b2, b3, b4, b5, b6, b7)) =
+  let bit b k = if b then 1 lsl k else 0 in
+  Char.chr (bit b0 0 lor bit b1 1 lor bit b2 2 lor bit b3 3 lor bit b4 4 lor bit b5 5 lor bit b6 6 lor bit b7 7)
+
+let rec ocaml_string (s : F.string) : string =
+  match s with
+  | F.EmptyString -> ""
+  | F.String (a, r) -> String.make 1 (char_of_ascii a) ^ ocaml_string r
+
+let ascii_of_char c =
+  let k = Char.code c in
+  let b i = (k lsr i) land 1 = 1 in
+  F.Ascii (b 0, b 1, b 2, b 3, b 4, b 5, b 6, b 7)
+
+let coq_string (s : string) : F.string =
+  let r = ref F.EmptyString in
+  for i = String.length s - 1 downto 0 do
+    r := F.String (ascii_of_char s.[i], !r)
+  done;
+  !r
